@@ -440,10 +440,18 @@ def crash_signature(tb: str) -> str:
             pick = (mod, fn)
     if pick is None and frames:
         pick = frames[-1]
-    last = [ln for ln in tb.strip().splitlines() if ln.strip()][-1]
-    m = re.match(r'([\w.]+)(?::\s*(.*))?$', last.strip())
-    etype = m.group(1).split('.')[-1] if m else 'Exception'
-    msg = (m.group(2) or '') if m else last
+    lines = [ln.strip() for ln in tb.strip().splitlines() if ln.strip()]
+    etype, msg = 'Exception', lines[-1] if lines else ''
+    for ln in reversed(lines):
+        m = re.match(
+            r'([A-Za-z_][\w.]*(?:Error|Exception|Exit|Interrupt|Deadlock))'
+            r'(?::\s*(.*))?$', ln,
+        )
+        if m:
+            etype = m.group(1).split('.')[-1]
+            msg = m.group(2) or ''
+            break
+    msg = re.sub(r'<[^>]*>', 'T', msg)
     msg = re.sub(r'[-+]?\d+(\.\d+)?(e[-+]?\d+)?', 'N', msg)[:60].strip()
     where = f'{pick[0]}:{pick[1]}' if pick else 'unknown'
     return f'{where}:{etype}:{msg}'
@@ -495,6 +503,18 @@ def _judge_output(
             rec.update(O.judge_system(ref[1], ref[2], V, pi, pf, n, m, d))
         if ref[0] == 'circuit':
             rec['meas'] = O.judge_measurements(ref[1], out_ops, pf)
+    if m == n and all(r == d for r in radixes):
+        # the circuit as it stands, no mappings (what C03 literally states)
+        V = O.unitary_of(out_ops, radixes)
+        idm = list(range(n))
+        if ref[0] in ('circuit', 'unitary'):
+            U = ref[2] if ref[0] == 'circuit' else ref[1]
+            rec['dist_plain'] = O.judge_unitary(U, V, idm, idm, n, m, d)['dist']
+        elif ref[0] == 'state':
+            rec['dist_plain'] = O.judge_state(ref[1], V, idm, n, m, d)['dist']
+        else:
+            rec['dist_plain'] = O.judge_system(
+                ref[1], ref[2], V, idm, idm, n, m, d)['dist']
 
     # ---- executability (C02)
     if ms is None:
